@@ -104,7 +104,24 @@ func execSpec(c *chk.Ctx, root string, s *spec.Spec, cfg Cfg, behav vproto.Behav
 	}
 	cs := &run.Case{Root: root, Bin: bin, Spec: sp, Env: env, Behav: behav, KeepWd: keepWd, RunNo: runNo, Soft: soft, Hard: hard}
 	c.Eval(1)
-	return cs.Run()
+	res := cs.Run()
+	if res.Signal == "killed" && res.Hang == "" && cfg.Crash == "" && !behavKillsGroup(behav) {
+		// The subject died from a SIGKILL that this experiment did not send (no crash point, no group kill by a
+		// command) and that the library cannot send (it contains no kill). Seen once on a heavily loaded machine;
+		// the sender could not be identified. Such a run says nothing about the property: inconclusive.
+		res.Hang = "inconclusive:subject-killed-by-a-SIGKILL-the-experiment-did-not-send"
+		c.Count("runs_killed_from_outside", 1)
+	}
+	return res
+}
+
+func behavKillsGroup(b vproto.Behaviours) bool {
+	for _, opts := range b {
+		if opts["killgroup"] != "" {
+			return true
+		}
+	}
+	return false
 }
 
 // sourcesOf returns the pre-run files of a spec as ref input.
